@@ -13,6 +13,7 @@ import BufrModel.Drv.SectionsOp
 import BufrModel.Drv.SubsetOp
 import BufrModel.Drv.TemplateOp
 import BufrModel.Drv.CacheOp
+import BufrModel.Drv.CompilerOp
 open Lean Bufr.Drv
 
 /-- stateless operations: one line per op -/
@@ -42,6 +43,10 @@ def statefulOps : List (String × (DrvState → Json → J (DrvState × Json))) 
   ("expand-row", opExpandRow) ::
   ("expand-all", opExpandAll) ::
   ("tables-wf", opTablesWf) ::
+  ("compile", opCompile) ::
+  ("dec-data-compiled", opDecDataCompiled) ::
+  ("enc-data-compiled", opEncDataCompiled) ::
+  ("cache", opCache) ::
   []
 
 def dispatch (st : DrvState) (j : Json) : J (DrvState × Json) := do
